@@ -12,8 +12,30 @@ POSITIONS = [
     ("propertyNames", "implies(not attr_absent(element,'propertyNames') and isinstance(element.propertyNames, Element), member_is(result, element.propertyNames))"),
     ("items", "implies(not attr_absent(element,'items') and isinstance(element.items, Element), member_is(result, element.items))"),
     ("element", "implies(not attr_absent(element,'element') and isinstance(element.element, Element), member_is(result, element.element))"),
+    # list-valued positions: tuple `items` and the members of a composition
+    ("items[]", "implies(not attr_absent(element,'items') and is_list(element.items), all_members(element.items, lambda m: implies(isinstance(m, Element), member_is(result, m))))"),
+    ("elements[]", "implies(not attr_absent(element,'elements') and is_list(element.elements), all_members(element.elements, lambda m: implies(isinstance(m, Element), member_is(result, m))))"),
 ]
-contract(O + "get_children", requires="isinstance(element, Element) and (seen is None or is_set(seen))",
+# shape of the dict-valued keyword attributes of every element object (an invariant of the inputs, stated over the whole heap so
+# that it also covers the children handed to the recursive call): what Element.__init__ / the properties setter establish
+from pyvc.contracts import macro
+_PROPS_OK = ("forall(lambda j: isinstance(val_at({d}, j), _Property) and not attr_absent(val_at({d}, j),'element') and "
+             "is_obj(val_at({d}, j).element), len({d}))")
+macro("gp_shape", ["x"],
+      "(attr_absent(x,'patternProperties') or is_np(x.patternProperties) or dict_wf(x.patternProperties)) and "
+      "(attr_absent(x,'dependencies') or is_np(x.dependencies) or dict_wf(x.dependencies)) and "
+      "(attr_absent(x,'_properties') or is_np(x._properties) or (isinstance(x._properties, _PropertyDict) and dict_wf(obj_dict(x._properties)) and "
+      + _PROPS_OK.format(d="obj_dict(x._properties)") + "))")
+HEAP_OK = "forall_v(lambda x: implies(isinstance(x, Element), gp_shape(x)))"
+_PDX = "obj_dict(element._properties)"
+POSITIONS += [
+    ("properties", f"implies(not attr_absent(element,'_properties') and not is_np(element._properties), forall(lambda j: implies(isinstance(val_at({_PDX}, j).element, Element), member_is(result, val_at({_PDX}, j).element)), len({_PDX})))"),
+    ("patternProperties", "implies(not attr_absent(element,'patternProperties') and is_dict(element.patternProperties), forall(lambda j: implies(isinstance(val_at(element.patternProperties, j), Element), "
+                          "member_is(result, val_at(element.patternProperties, j))), len(element.patternProperties)))"),
+    ("dependencies", "implies(not attr_absent(element,'dependencies') and is_dict(element.dependencies), forall(lambda j: implies(isinstance(val_at(element.dependencies, j), Element), "
+                     "member_is(result, val_at(element.dependencies, j))), len(element.dependencies)))"),
+]
+contract(O + "get_children", requires="isinstance(element, Element) and (seen is None or is_set(seen)) and " + HEAP_OK,
          returns="is_list(result) and " + " and ".join(f"implies(is_obj(element) and not seen_has(old(seen), element), {c})" for _, c in POSITIONS),
          modifies=["seen"], result_kind="list", kinds={"=seen": "set"}, ghost={"filter_facts": "membership"}, lemmas=["IS-MEM"],
          invariants={1: "is_set(seen) and is_list(_yielded) and members_subset(prefix(_seq, _k), _yielded)"}, props=["C11", "C02", "C03", "C09"])
@@ -23,9 +45,36 @@ contract(O + "get_children", requires="isinstance(element, Element) and (seen is
 # a list as its members, nothing if absent.  Paths through `*` flatten nested lists (itertools.chain): assumed, bounded-checked.
 SIMPLE = ["items", "additionalItems", "contains", "additionalProperties", "propertyNames", "elements", "element"]
 for p in SIMPLE:
-    contract(O + "_get_path", inst=p, requires="isinstance(element, Element)",
+    contract(O + "_get_path", inst=p, requires="isinstance(element, Element)" + (" or isinstance(element, _Property)" if p == "element" else ""),
              returns=f"is_list(result) and implies(is_obj(element), result is ([] if attr_absent(element,'{p}') else (element.{p} if is_list(element.{p}) else [element.{p}])))",
-             result_kind="list", kinds={"path": "const:" + p}, props=["C11"])
-for p in ["properties.*.element", "patternProperties.*", "dependencies.*"]:
-    contract(O + "_get_path", inst=p, requires="isinstance(element, Element)", returns="is_list(result)", result_kind="list",
-             kinds={"path": "const:" + p}, trusted=True, props=["C11"], note="path through `*`: itertools.chain flattening of per-member results (bounded-checked in C11/C03)")
+             result_kind="list", kinds={"path": "const:" + p}, props=["C11"],
+             ghost=({"function": "([] if attr_absent(element,'element') else (element.element if is_list(element.element) else [element.element]))"} if p == "element" else {}))
+# `*.element` on the property dict of an element: the elements of its properties, in order
+PROPS_OK = ("forall(lambda j: isinstance(val_at({d}, j), _Property) and not attr_absent(val_at({d}, j),'element') and "
+            "is_obj(val_at({d}, j).element), len({d}))")
+contract(O + "_get_path", inst="*.element",
+         requires="(is_np(element) or ((is_dict(element) or isinstance(element, _PropertyDict)) and dict_wf(obj_dict(element)) and " + PROPS_OK.format(d="obj_dict(element)") + "))",
+         returns="is_list(result) and implies(is_np(element), len(result) == 0) and implies(not is_np(element), len(result) == len(obj_dict(element)) and "
+                 "forall(lambda j: result[j] is val_at(obj_dict(element), j).element, len(obj_dict(element))))",
+         result_kind="list", kinds={"path": "const:*.element"}, props=["C11"])
+PD_ = "obj_dict(element.properties)"
+contract(O + "_get_path", inst="properties.*.element",
+         requires="isinstance(element, Element) and (attr_absent(element,'_properties') or is_np(element._properties) or (isinstance(element._properties, _PropertyDict) and "
+                  "dict_wf(obj_dict(element._properties)) and " + PROPS_OK.format(d="obj_dict(element._properties)") + "))",
+         returns=f"is_list(result) and implies(is_obj(element) and not attr_absent(element,'_properties') and not is_np(element._properties), len(result) == len(obj_dict(element._properties)) and "
+                 "forall(lambda j: result[j] is val_at(obj_dict(element._properties), j).element, len(obj_dict(element._properties))) and "
+                 "forall(lambda j: member_is(result, val_at(obj_dict(element._properties), j).element), len(obj_dict(element._properties))))",
+         result_kind="list", kinds={"path": "const:properties.*.element"}, lemmas=["IS-MEM", "IS-MEM-NTH"], props=["C11"])
+
+# the `*` segment: the values of a dict, in order; nothing for a value without `.values()` (NotPassed)
+contract(O + "_get_path", inst="*", requires="dict_wf(element) or is_np(element)",
+         returns="is_list(result) and implies(is_np(element), len(result) == 0) and "
+                 "implies(is_dict(element), len(result) == len(element) and forall(lambda j: result[j] is val_at(element, j), len(element)))",
+         result_kind="list", kinds={"path": "const:*"}, props=["C11"])
+for p in ["patternProperties", "dependencies"]:
+    D = f"element.{p}"
+    contract(O + "_get_path", inst=p + ".*",
+             requires=f"isinstance(element, Element) and (attr_absent(element,'{p}') or is_np({D}) or dict_wf({D}))",
+             returns=f"is_list(result) and implies(is_obj(element) and not attr_absent(element,'{p}') and is_dict({D}), "
+                     f"len(result) == len({D}) and forall(lambda j: result[j] is val_at({D}, j), len({D})) and forall(lambda j: member_is(result, val_at({D}, j)), len({D})))",
+             result_kind="list", kinds={"path": "const:" + p + ".*"}, lemmas=["IS-MEM", "IS-MEM-NTH"], props=["C11"])
